@@ -147,6 +147,24 @@ def gen_zone(rng):
     mode = rng.choice(["plain", "plain", "abbr_change", "dst_dst",
                        "negative_dst", "base_change", "big_jump", "random",
                        "random", "no_transitions", "one_type"])
+    if rng.random() < 0.04:
+        # the format's own limits: up to 256 local time types, type indices
+        # that do not fit a signed byte; every transition switches to the
+        # next type, half an hour apart in offset, a week apart in time
+        ntypes = rng.choice([127, 128, 129, 200, 255, 256])
+        t0 = -1500000000 + rng.randrange(0, 86400 * 300)
+        base = _off(rng, -11 * 3600, -3 * 3600)
+        mtypes = [[base + 60 * i, i % 5 == 3, ["AAA", "BBB", "CCCC"][i % 3]]
+                  for i in range(ntypes)]
+        order = list(range(1, ntypes))
+        rng.shuffle(order)
+        order = order[:59]
+        if ntypes - 1 not in order:
+            order[-1] = ntypes - 1
+        return dict(kind="synthetic", mode="many_types",
+                    trans=[t0 + 7 * 86400 * k for k in range(len(order))],
+                    idx=order, types=mtypes, isstd=[], isgmt=[], leaps=[],
+                    version=rng.choice([1, 2]))
     t = rng.choice([-1500000000, -600000000, 0, 500000000, 1200000000]) + \
         rng.randrange(0, 86400 * 300)
     types = []
@@ -562,11 +580,16 @@ class Loader(object):
         # win over the first
         fs.add_file(ZW.ZI2 + "/Area/Zone",
                     ZW.zone_bytes(ZW.simple_zone(33)))
+        # a root-level member with the same base name as the zone, other
+        # data, and a hard link inside the directory pointing at the
+        # ROOT-level one (a hard link's target is a full archive name)
+        self.root_twin = ZW.zone_bytes(ZW.simple_zone(11))
         self.archive = ZW.make_archive(
-            {"Area/Zone": data, "Other/Thing": ZW.zone_bytes(
-                ZW.simple_zone(7))},
+            {"Area/Zone": data, "Zone": self.root_twin,
+             "Other/Thing": ZW.zone_bytes(ZW.simple_zone(7))},
             links=[("Area/Link", "Area/Zone", "sym"),
-                   ("Area/Hard", "Area/Zone", "hard")],
+                   ("Area/Hard", "Area/Zone", "hard"),
+                   ("Area/ToRoot", "Zone", "hard")],
             metadata=b'{"tzversion": "sim"}', order=archive_order)
         if archive_order != "links_last":
             ctx.probe("archive_order." + archive_order)
@@ -881,6 +904,12 @@ def execute(cls, scenario, ctx):
                 if L.zif.get("Area/Link") is not a or \
                         L.zif.get("Area/Hard") is not a:
                     ctx.violation("C06.link_not_target", dict(zone=label))
+                r = L.zif.get("Zone")
+                if L.zif.get("Area/ToRoot") is not r or r is None or \
+                        not (r == L.tz.tzfile(io.BytesIO(L.root_twin))):
+                    ctx.violation("C06.link_not_target",
+                                  dict(zone=label, link="Area/ToRoot",
+                                       target="Zone"))
             kinds = set(op[0] for op, _ in zones)
             if len(kinds) >= 2 and ctx.checks:
                 ctx.nontrivial = True
